@@ -71,6 +71,12 @@ class TieKey:
     def __lt__(self, o):
         return False if type(o) is TieKey else NotImplemented
 
+    def __eq__(self, o):
+        return type(o) is TieKey and o.v == self.v
+
+    def __hash__(self):
+        return hash(('TieKey', self.v))
+
     def __repr__(self):
         return f'TieKey({self.v})'
 
@@ -204,7 +210,7 @@ def gen_keys(rng: random.Random, n: int, style: str):
         elif style == 'tie_mixed':
             r = rng.random()
             if r < 0.5:
-                out.append(TieKey(rng.randrange(100)))
+                add(TieKey(rng.randrange(100)))
             elif r < 0.85:
                 add(rng.randrange(20))
             elif len(out) >= n // 2:
@@ -419,8 +425,8 @@ def fresh(x):
         return complex(repr(x))
     if t is frozenset:
         return frozenset(list(x)) if x else x
-    if t in (UKey, OKey, HKey):
-        return t(x.v)  # TieKey compares by identity: keep the object
+    if t in (UKey, OKey, HKey, TieKey):
+        return t(x.v)
     return x
 
 
